@@ -68,6 +68,20 @@ impl Ledger {
         }
     }
 
+    /// True if crediting `coins` to `to` would take a balance beyond the 128-bit range (no implementation can do
+    /// that without losing coins: the operation has to fail).
+    pub fn credit_overflows(&self, to: &str, coins: &Coins) -> bool {
+        let mut add: BTreeMap<&str, u128> = BTreeMap::new();
+        for (d, a) in coins {
+            let e = add.entry(d.as_str()).or_insert(0);
+            match e.checked_add(*a) {
+                Some(x) => *e = x,
+                None => return true,
+            }
+        }
+        add.iter().any(|(d, a)| self.bal(to, d).checked_add(*a).is_none())
+    }
+
     /// Returns false (and changes nothing) if invalid.
     pub fn send(&mut self, from: &str, to: &str, coins: &Coins) -> bool {
         if !self.can_debit(from, coins) {
